@@ -383,6 +383,164 @@ def jobinstance_file_roundtrip(ji):
             pass
 
 
+class _Wire:
+    """in-process stand-in for the zmq transport, swapped in at the level of the zmq module (zmq.Context / zmq.Poller and
+    every name a loaded cascade.* module has bound to them), so the real comms.send_data / callback / Listener run
+    unchanged whatever helper they open their sockets through: a PUSH socket puts whole multipart messages into the
+    queue of the address it is connected to, a PULL socket reads the queue of the address it is bound to"""
+    def __init__(self):
+        import collections
+        self.queues = collections.defaultdict(collections.deque)
+        wire = self
+
+        class Sock:
+            def __init__(self, kind):
+                self.kind, self.addr, self.parts = kind, None, []
+
+            def set(self, *a, **k):
+                pass
+            setsockopt = set
+
+            def connect(self, addr, *a, **k):
+                self.addr = addr
+
+            def bind(self, addr, *a, **k):
+                self.addr = addr
+
+            def send(self, data, flags=0, *a, **k):
+                self.parts.append(bytes(data))
+                if not (flags & 2):        # zmq.SNDMORE
+                    wire.queues[self.addr].append(self.parts)
+                    self.parts = []
+
+            def send_multipart(self, msg_parts, flags=0, *a, **k):
+                msg_parts = list(msg_parts)
+                for i, part in enumerate(msg_parts):
+                    self.send(part, flags | (2 if i + 1 < len(msg_parts) else 0))
+
+            def recv_multipart(self, *a, **k):
+                return list(wire.queues[self.addr].popleft())
+
+            def recv(self, *a, **k):
+                return self.recv_multipart()[0]
+
+            def close(self, *a, **k):
+                pass
+
+        class Context:
+            def __init__(self, *a, **k):
+                pass
+
+            @classmethod
+            def instance(cls, *a, **k):
+                return cls()
+
+            def socket(self, kind, *a, **k):
+                return Sock(kind)
+
+            def term(self, *a, **k):
+                pass
+            destroy = term
+
+        class Poller:
+            def __init__(self, *a, **k):
+                self.socks = []
+
+            def register(self, sock, *a, **k):
+                self.socks.append(sock)
+
+            def unregister(self, sock):
+                self.socks.remove(sock)
+
+            def poll(self, timeout=None):
+                return [(sk, 1) for sk in self.socks if wire.queues[sk.addr]]
+        self.Context, self.Poller = Context, Poller
+
+    def __enter__(self):
+        import sys
+        import zmq
+        self.saved = []
+        for name, fake in (("Context", self.Context), ("Poller", self.Poller)):
+            real = getattr(zmq, name)
+            self.saved.append((zmq, name, real))
+            setattr(zmq, name, fake)
+            for mn, mod in list(sys.modules.items()):
+                if mn.startswith("cascade") and mod is not None:
+                    for an, av in list(vars(mod).items()):
+                        if av is real:
+                            self.saved.append((mod, an, real))
+                            setattr(mod, an, fake)
+        return self
+
+    def __exit__(self, *exc):
+        for mod, name, real in reversed(self.saved):
+            setattr(mod, name, real)
+
+
+PAYLOAD_MAGIC = [b"\x78\x9c", b"\x78\x01", b"\x78\xda", b"\x1f\x8b\x08", b"BZh9", b"\xfd7zXZ\x00", b"\x28\xb5\x2f\xfd", b"\x80\x04", b"\x80\x05\x95",
+                 b"PK\x03\x04", b"\x89HDF", b"GRIB", b"\x93NUMPY", b"\x00", b"\xff\xff"]
+
+
+def wire_value(recipe):
+    import zlib
+    k = recipe["kind"]
+    if k == "zlib":
+        return zlib.compress(bytes.fromhex(recipe["raw_hex"]), recipe["level"])
+    if k == "repeat":
+        unit = bytes.fromhex(recipe["hex"])
+        return (unit * (recipe["len"] // len(unit) + 8))[:recipe["len"]]
+    if k == "zlib-of-z":
+        return zlib.compress(b"z" * recipe["len"])
+    return bytes.fromhex(recipe["hex"])
+
+
+def wire_part(ctx, res):
+    """payload frames end to end: the real comms.send_data puts [Syn, header, value] on the (fake) wire, the real
+    Listener.recv_messages hands the payload to the application; header and value bytes must come out as they went in,
+    whatever the value looks like (outputs of serdes that compress, pickles, empty, sizes around powers of two)"""
+    import zlib
+    import cascade.executor.comms as comms
+    import cascade.executor.msg as msg
+    from cascade.low.core import DatasetId
+    rng = ctx.sub_rng("wire")
+
+    def value():
+        k = rng.randrange(8)
+        if k == 0:
+            raw = bytes(rng.randrange(256) for _ in range(rng.choice([0, 2, 100, 5000])))
+            return {"kind": "zlib", "raw_hex": raw.hex(), "level": rng.choice([1, 6, 9])}
+        if k == 1:
+            return {"kind": "bytes", "hex": (rng.choice(PAYLOAD_MAGIC) + bytes(rng.randrange(256) for _ in range(rng.choice([0, 1, 9, 200])))).hex()}
+        if k == 2:
+            return {"kind": "bytes", "hex": ""}
+        if k == 3:
+            return {"kind": "repeat", "hex": rng.choice(PAYLOAD_MAGIC + [b"ab"]).hex(), "len": rng.choice([2**16, 2**20, 2**21]) + rng.choice([-1, 0, 1])}
+        if k == 4:
+            return {"kind": "zlib-of-z", "len": rng.choice([2**20, 3 * 2**20])}
+        return {"kind": "bytes", "hex": bytes(rng.randrange(256) for _ in range(rng.choice([1, 7, 300, 4096, 70000]))).hex()}
+    with _Wire():
+        addr, back = "inproc://c17-wire", "inproc://c17-back"
+        listener = comms.Listener(addr)
+        for i in range(ctx.n(150, 3000)):
+            recipe = value()
+            v = wire_value(recipe)
+            hdr = msg.DatasetTransmitPayloadHeader(confirm_address=back, confirm_idx=i, ds=DatasetId(rand_ascii(rng, 6), rand_ascii(rng, 3)), deser_fun=rng.choice(["cloudpickle.loads", "zlib.decompress", "x.y"]))
+            payload = msg.DatasetTransmitPayload(header=hdr, value=v)
+            res.evaluations += 1
+            res.count("wire:payload:" + ("zlib-magic" if v[:1] == b"\x78" else "empty" if not v else ">=1MiB" if len(v) >= 2**20 else "other"))
+            case = {"part": "wire", "value": recipe, "deser_fun": hdr.deser_fun, "value_len": len(v), "value_head_hex": v[:16].hex()}
+            try:
+                comms.send_data(addr, payload, msg.Syn(i, back))
+                got = listener.recv_messages(0)
+                ok = len(got) == 1 and type(got[0]) is msg.DatasetTransmitPayload and got[0].header == hdr and bytes(got[0].value) == v
+                what = f"sent a payload of {len(v)} bytes starting {v[:8].hex()}, the listener delivered " + (f"{len(got)} messages" if len(got) != 1 else f"{type(got[0]).__name__} with {len(bytes(getattr(got[0], 'value', b'')))} bytes starting {bytes(getattr(got[0], 'value', b''))[:8].hex()}, header equal: {getattr(got[0], 'header', None) == hdr}")
+            except Exception as e:
+                ok, what = False, f"payload of {len(v)} bytes starting {v[:8].hex()}: {e!r}"
+            if not ok:
+                res.fail("payload-frame-roundtrip", what, case)
+            res.nontrivial_keys.add(("wire", len(v), v[:8]))
+
+
 def pickle_part(ctx, res):
     """(d) executor messages, controller reports, JobInstance JSON: sampled round-trips"""
     import orjson
@@ -500,6 +658,7 @@ def run(ctx, res):
                 "ControllerReport and JobInstance. distinct = distinct (class, encoding) or distinct repr")
     shm_part(ctx, res)
     envelope_part(ctx, res)
+    wire_part(ctx, res)
     pickle_part(ctx, res)
 
 
@@ -540,4 +699,19 @@ def replay(ctx, case):
             return {"fails": not same(back, m), "got": repr(back)}
         except Exception as e:
             return {"fails": in_domain(m), "raised": repr(e)}
+    if c.get("part") == "wire" and "value" in c:
+        import cascade.executor.comms as comms
+        import cascade.executor.msg as msg
+        from cascade.low.core import DatasetId
+        v = wire_value(c["value"])
+        with _Wire():
+            listener = comms.Listener("inproc://c17-wire")
+            hdr = msg.DatasetTransmitPayloadHeader(confirm_address="inproc://c17-back", confirm_idx=0, ds=DatasetId("t", "o"), deser_fun=c.get("deser_fun", "x.y"))
+            try:
+                comms.send_data("inproc://c17-wire", msg.DatasetTransmitPayload(header=hdr, value=v), msg.Syn(0, "inproc://c17-back"))
+                got = listener.recv_messages(0)
+                ok = len(got) == 1 and getattr(got[0], "header", None) == hdr and bytes(got[0].value) == v
+                return {"fails": not ok, "delivered": [type(g).__name__ for g in got], "value_len_out": len(bytes(getattr(got[0], "value", b""))) if got else None}
+            except Exception as e:
+                return {"fails": True, "raised": repr(e)}
     return {"fails": None, "note": "replay by re-running ./check C17 with the recorded seed"}
